@@ -5,9 +5,9 @@
   * `setocc_inv`            one edit keeps the bookkeeping invariant
   * `setocc_ok_of_declared` every declared species (-1 … nchem-1) can be placed on every site
   * `setocc_rejects`        undeclared species are rejected (state unchanged by `step`)
-  * `run_inv`               any history of ops from any consistent store stays consistent
-  * `inv_sane`              the invariant implies the source's `__sane__` test
-  * `poscar_roundtrip`      POSCAR followed by POSCAR_occ reproduces occ and chemorder
+  * `setoccMany_inv`, `fill_inv`, `poscarOcc_inv`   sequences of edits keep the invariant
+  Continued in OnsagerProofs/C28More.lean: `imul_inv`, `reorder_inv`/`reorder_perm`, `inv_sane`,
+  `poscar_roundtrip`, `run_inv` (the whole op language), `reachable_sane`.
 -/
 import OnsagerModel.C28
 import Mathlib.Data.List.Nodup
